@@ -316,4 +316,15 @@ CHECKS = {
 NOT_APPLICABLE = {}
 
 # checks that exist but are temporarily not claimed (being reconciled with repairs of other properties)
-SUSPENDED = {'C12': 'built and merged; its access-skeleton translator is following a late repair of ProtocolBase.sort_fields; not claimed until green again'}
+SUSPENDED = {}
+
+# per-property overrides delivered by the builders (keys: text, note, technique, design_ref); a note that does not start
+# with the trusted-base paragraph gets it prepended
+import json as _json, os as _os, glob as _glob
+for _f in sorted(_glob.glob(_os.path.join(_os.path.dirname(_os.path.abspath(__file__)), 'manifest.d', 'C*.json'))):
+    _pid = _os.path.basename(_f)[:-5]
+    _o = _json.load(open(_f))
+    if _pid in CHECKS:
+        for _k in ('text', 'note', 'technique', 'design_ref'):
+            if _o.get(_k):
+                CHECKS[_pid][_k] = (TB + _o[_k]) if _k == 'note' and not _o[_k].startswith('Trusted:') else _o[_k]
